@@ -282,7 +282,10 @@ def run_unit(spec, unit, scratch, tier="quick", trace=False):
         desc = r.get("description", "")
         st = r.get("status")
         if "vp_canary" in desc:
-            canary = st
+            # only the canary of THIS unit's harness counts (without DFCC the other
+            # harnesses of the module are in the binary too, unreachable)
+            if r.get("sourceLocation", {}).get("function", entry) == entry:
+                canary = st
             continue
         nob += 1
         names.append(name)
